@@ -245,3 +245,22 @@ Theorem width_irrelevant_canonicalisation : forall t ndim ps,
   m_canon (DInt t) ndim ps = m_canon DInf ndim ps.
 Proof. exact width_irrelevant_canon_proof. Qed.
 Print Assumptions width_irrelevant_canonicalisation.
+
+(* ---- _dot (COO @ COO): the CSR row pointers built from the operands count stored elements in the generated
+        s_dot_indptr_dtype (intp): exact for every coordinate dtype, also when nnz exceeds that dtype *)
+Theorem width_irrelevant_dot_indptr : forall t rows rc,
+  Z.of_nat (length rc) < 2 ^ 63 ->
+  m_dot_indptr (DInt t) rows rc = m_dot_indptr DInf rows rc /\
+  tv (m_dot_indptr (DInt t) rows rc) = 0 :: cumsum_from 0 (map (fun r => count_eq r rc) (zrange rows)).
+Proof. exact width_irrelevant_dot_indptr_proof. Qed.
+Print Assumptions width_irrelevant_dot_indptr.
+
+(* ---- COO.__init__: an array without stored elements always carries intp coordinates (generated
+        s_ctor_empty_dtype), whatever empty coordinate array was supplied (tensordot's zero-size shortcut
+        supplies uintp): joining it with ordinary arrays never promotes the coordinates to float64 *)
+Theorem ctor_empty_coords_intp : forall d axis0,
+  m_ctor_empty_dtype d = DInt i64 /\
+  m_stack (m_ctor_empty_dtype d) axis0 = Ok (DInt i64) /\
+  promote (m_ctor_empty_dtype d) (DInt i64) = DInt i64.
+Proof. exact ctor_empty_coords_intp_proof. Qed.
+Print Assumptions ctor_empty_coords_intp.
